@@ -241,7 +241,8 @@ impl<'a> IVP for Instr<'a> {
                     }
                 }
                 Fault::NormAbove { theta, v } => {
-                    if crate::util::inf_norm(y) > *theta {
+                    // outside the ball, or an argument that is already NaN (a real right-hand side propagates NaN)
+                    if crate::util::inf_norm(y) > *theta || y.iter().any(|v| v.is_nan()) {
                         for d in dydx.iter_mut() {
                             *d = fault_val(*v);
                         }
